@@ -4,6 +4,7 @@ import (
 	"context"
 	"math/rand"
 	"sync"
+	"sync/atomic"
 	"testing"
 	"time"
 
@@ -165,6 +166,54 @@ func runGroup(t *testing.T, steps []grpStep) ([]Ev, bool, string) {
 	})
 }
 
+// groupStopRace: outside a bubble (true parallelism): goroutines keep registering Do functions while
+// StopAndWait runs; a function that begins after StopAndWait returned is written out as a trace in
+// the vocabulary of Trace_Group (plus a sample of the good trials).
+func groupStopRace(w *traceWriter, runs *int, trials int) {
+	for i := 0; i < trials; i++ {
+		g := xsync.NewGroup(context.Background())
+		var returned, late atomic.Bool
+		var wg sync.WaitGroup
+		stop := make(chan struct{})
+		for j := 0; j < 8; j++ {
+			wg.Add(1)
+			go func() {
+				defer wg.Done()
+				for {
+					select {
+					case <-stop:
+						return
+					default:
+					}
+					g.Do(func(ctx context.Context) {
+						if returned.Load() {
+							late.Store(true)
+						}
+					})
+				}
+			}()
+		}
+		time.Sleep(20 * time.Microsecond)
+		g.StopAndWait()
+		returned.Store(true)
+		time.Sleep(50 * time.Microsecond)
+		close(stop)
+		wg.Wait()
+		time.Sleep(20 * time.Microsecond)
+		if !late.Load() && i%100 != 0 {
+			continue
+		}
+		w.put(Ev{"ev": "reset", "run": *runs})
+		w.put(Ev{"ev": "reg", "k": 1, "kind": "do", "iv": 0, "jit": 0, "t": 0})
+		w.put(Ev{"ev": "call", "id": 1, "op": "StopAndWait", "t": 0})
+		w.put(Ev{"ev": "ret", "id": 1, "op": "StopAndWait", "t": 0})
+		if late.Load() {
+			w.put(Ev{"ev": "fbegin", "k": 1, "t": 0})
+		}
+		*runs++
+	}
+}
+
 func TestGroup(t *testing.T) {
 	rng := seededRand()
 	w := newTraceWriter(envStr("VH_OUT", "/tmp/group.ndjson"))
@@ -177,6 +226,7 @@ func TestGroup(t *testing.T) {
 		}
 		writeRuns(w, &runs, evs, leak, msg, Ev{})
 	}
+	groupStopRace(w, &runs, envInt("VH_RACE_N", 1500))
 	w.close()
 	report(Ev{"engine": "bubble", "subject": "group", "runs": runs, "events": w.n, "leaks": leaks})
 }
